@@ -57,15 +57,15 @@ var (
 	Any    = &Type{K: KAny}
 )
 
-func IntType(name string) *Type         { return &Type{K: KInt, Name: name} }
-func Opt(e *Type) *Type                 { return &Type{K: KOpt, Elem: e} }
-func Arr(e *Type) *Type                 { return &Type{K: KArr, Elem: e} }
-func Dict(k, v *Type) *Type             { return &Type{K: KDict, Key: k, Elem: v} }
-func Comp(name string) *Type            { return &Type{K: KComp, Name: name} }
-func Res(name string) *Type             { return &Type{K: KComp, Name: name, Resource: true} }
-func Ref(e *Type) *Type                 { return &Type{K: KRef, Elem: e} }
+func IntType(name string) *Type          { return &Type{K: KInt, Name: name} }
+func Opt(e *Type) *Type                  { return &Type{K: KOpt, Elem: e} }
+func Arr(e *Type) *Type                  { return &Type{K: KArr, Elem: e} }
+func Dict(k, v *Type) *Type              { return &Type{K: KDict, Key: k, Elem: v} }
+func Comp(name string) *Type             { return &Type{K: KComp, Name: name} }
+func Res(name string) *Type              { return &Type{K: KComp, Name: name, Resource: true} }
+func Ref(e *Type) *Type                  { return &Type{K: KRef, Elem: e} }
 func AuthRef(auth string, e *Type) *Type { return &Type{K: KRef, Elem: e, Auth: auth} }
-func Func(ret *Type, ps ...*Type) *Type { return &Type{K: KFunc, Elem: ret, Params: ps} }
+func Func(ret *Type, ps ...*Type) *Type  { return &Type{K: KFunc, Elem: ret, Params: ps} }
 
 // IsResource reports whether values of the type are moved rather than copied.
 func (t *Type) IsResource() bool {
